@@ -1,6 +1,6 @@
 (* PV.C17.ProofsFinal — the statements of Properties.v, proved from the lemma files. *)
 From Coq Require Import List Bool PArith Arith Permutation.
-From PV Require Import Base.PyData C17.Model C17.ProofsSched C17.ProofsDask C17.ProofsGraph C17.ProofsBuilder C17.Proofs C17.ProofsPrepare C17.ProofsDeclared C17.ProofsOptimize C17.ProofsQueries C17.ProofsFuse C17.ProofsOptimizeAll.
+From PV Require Import Base.PyData C17.Model C17.ProofsSched C17.ProofsDask C17.ProofsGraph C17.ProofsBuilder C17.Proofs C17.ProofsPrepare C17.ProofsDeclared C17.ProofsOptimize C17.ProofsQueries C17.ProofsFuse C17.ProofsOptimizeAll C17.ProofsFuseCalls.
 Import ListNotations.
 
 Lemma topo_eval_is_sequential_evaluation_stmt :
@@ -325,3 +325,18 @@ Lemma unpacking_commutes_with_inlining_stmt :
   forall (steps : list fstep) (d : dsk), dsk_atomic d = true -> inline_only steps = true ->
     unfut_dsk (fst (fuse_steps d steps)) = fst (fuse_steps (unfut_dsk d) steps).
 Proof. exact inline_steps_commute. Qed.
+
+(* ---- the calls of a whole run after fusion ----------------------------------------------------------------- *)
+Lemma inline_preserves_calls_stmt :
+  forall (apply : positive -> list sval -> sval) (d : dsk) (c : positive),
+    NoDup (dkeys d) -> length (dask_sched d) = length d -> fuse_step_ok d (FInline c) = true ->
+    forall r, r <> c -> In r (dkeys d) ->
+      Permutation (snd (dask_get_log apply (fuse_step d (FInline c)) r)) (snd (dask_get_log apply d r)).
+Proof. exact inline_preserves_calls. Qed.
+
+Lemma optimize_preserves_calls_stmt :
+  forall (apply : positive -> list sval -> sval) (d : dsk) (steps : list fstep) (r : positive),
+    NoDup (dkeys d) -> length (dask_sched d) = length d -> dsk_no_fut d = true -> In r (dkeys d) ->
+    inline_only steps = true -> avoids r steps = true -> snd (fuse_steps d steps) = true ->
+    Permutation (snd (dask_get_dist_log apply (fst (fuse_steps (scatter_dsk d) steps)) r)) (snd (dask_get_log apply d r)).
+Proof. exact optimize_preserves_calls_lemma. Qed.
